@@ -602,6 +602,12 @@ fn consist_mass(c: &Consist) -> f64 {
 
 /// set-speed run: C07, C11, C12, C14, C19 (and the speed profile clause of C02 via the builder)
 pub fn set_speed_run(ctx: &mut Ctx, rng: &mut Rng, interval: Option<usize>, inject_negative: bool) {
+    set_speed_run_opt(ctx, rng, interval, inject_negative, true)
+}
+
+/// `consistent_init = false`: the builder's default initial state (speed 0) is kept although the trace
+/// may start rolling (the trace, not the initial state, defines the speeds of a set-speed run)
+pub fn set_speed_run_opt(ctx: &mut Ctx, rng: &mut Rng, interval: Option<usize>, inject_negative: bool, consistent_init: bool) {
     let b = match build_case(rng, 400.0) {
         Some(b) => b,
         None => {
@@ -617,8 +623,11 @@ pub fn set_speed_run(ctx: &mut Ctx, rng: &mut Rng, interval: Option<usize>, inje
     let steps = rng.usize(20, if ctx.prop == "C19" { 300 } else { 900 });
     let (time, mut speed) = gt::speed_trace(rng, dist, tp.speed_max.value.min(35.0), steps);
     // the initial train state must agree with the first trace entry (speed before the first step)
-    let init = InitTrainState::new(Some(uc::S * time[0]), None, Some(uc::MPS * speed[0]));
-    let builder = TrainSimBuilder::new("t".into(), b.spec.config.clone(), b.spec.consist.clone(), None, None, Some(init));
+    let init = if consistent_init { Some(InitTrainState::new(Some(uc::S * time[0]), None, Some(uc::MPS * speed[0]))) } else { None };
+    if !consistent_init && speed[0] > 0.0 {
+        obs(ctx, "C14", "obs.rolling_start_on_default_initial_state");
+    }
+    let builder = TrainSimBuilder::new("t".into(), b.spec.config.clone(), b.spec.consist.clone(), None, None, init);
     if time.len() < 3 {
         ctx.count("gen.trace_too_short");
         return;
@@ -687,7 +696,7 @@ pub fn set_speed_run(ctx: &mut Ctx, rng: &mut Rng, interval: Option<usize>, inje
         let d = RunData { b: &b, what: "SetSpeedTrainSim::walk", rows, path: &path, res, consist_mass: consist_mass(&b.spec.consist) };
         let _ = state0;
         let (straddle, jump3) = check_c07(ctx, &d);
-        let multi = check_c12(ctx, &d);
+        let multi = if consistent_init { check_c12(ctx, &d) } else { false };
         let both = check_c11(ctx, &d, &sim.loco_con, &sim.state, None, None, walked_ok);
         let (cl, un) = check_c14(ctx, &d, &sim.loco_con, &time, &speed);
         let sig = mix(hash_f64s(&[b.route_len, b.spec.length, b.spec.towed_mass, time.len() as f64, speed.iter().sum::<f64>()]));
@@ -784,6 +793,7 @@ pub fn speed_limit_run(ctx: &mut Ctx, rng: &mut Rng, interval: Option<usize>, ex
                 }
                 return;
             }
+            check_backward_eval(ctx, rng, &sim, &b);
             // pre-flight on a clone with a step budget: the real walk() cannot be interrupted
             if !preflight_terminates(ctx, &sim, &b, what) {
                 return;
@@ -1173,6 +1183,67 @@ fn preflight_terminates(ctx: &mut Ctx, sim: &SpeedLimitTrainSim, b: &Built, what
     }
 }
 
+/// C07, backward evaluation: drive ResMethod::update_res on clones exactly as BrakingPoints::recalc
+/// does (Dir::Unk at the end of the path, then decreasing offsets with Dir::Bwd) and compare every call
+pub fn check_backward_eval(ctx: &mut Ctx, rng: &mut Rng, sim: &SpeedLimitTrainSim, b: &Built) {
+    use altrios_core::lin_search_hint::Dir;
+    use altrios_core::train::ResMethod;
+    if ctx.prop != "C07" {
+        return;
+    }
+    let path = &sim.path_tpc;
+    let grades = path.grades();
+    let curves = path.curves();
+    let mut st = sim.state;
+    let mut tr = sim.train_res.clone();
+    let l = st.length.value;
+    let end = path.offset_end().value;
+    let begin = path.offset_begin().value;
+    st.offset = uc::M * end;
+    st.speed = uc::MPS * 0.0;
+    let mut dir = Dir::Unk;
+    let emax = grades.iter().map(|g| g.res_net.value.abs()).fold(1.0, f64::max);
+    let cmax = curves.iter().map(|g| g.res_net.value.abs()).fold(1e-9, f64::max);
+    let mut calls = 0;
+    loop {
+        if tr.update_res(&mut st, path, &dir).is_err() {
+            break;
+        }
+        calls += 1;
+        ctx.count("obs.backward_eval_calls");
+        let x = st.offset.value;
+        let xb = x - l;
+        let w = st.weight_static.value;
+        let g_ref = w * (cum(grades, x) - cum(grades, xb)) / l;
+        let c_ref = w * (cum(curves, x) - cum(curves, xb)) / l;
+        let gtol = w * (1e-12 * emax * 8.0 / l) + 1e-9 * g_ref.abs();
+        let ctol = w * (1e-12 * cmax * 8.0 / l) + 1e-9 * c_ref.abs();
+        let mut bad = |ctx: &mut Ctx, clause: &str, got: f64, want: String| {
+            ctx.violate(clause, &format!("C07:backward:{clause}"), format!("[backward evaluation as in braking-curve construction, call {calls}] {clause} = {got} but definition gives {want} (front x={x}, rear x={xb})"), json!({"case": case_json(b)}));
+        };
+        if (st.res_grade.value - g_ref).abs() > gtol {
+            bad(ctx, "res_grade", st.res_grade.value, format!("{g_ref}"));
+        }
+        if (st.res_curve.value - c_ref).abs() > ctol {
+            bad(ctx, "res_curve", st.res_curve.value, format!("{c_ref}"));
+        }
+        if !slopes(grades, x).iter().any(|s| close(*s, st.grade_front.value, 1e-12, 0.0)) {
+            bad(ctx, "grade_front", st.grade_front.value, format!("{:?}", slopes(grades, x)));
+        }
+        if !slopes(grades, xb).iter().any(|s| close(*s, st.grade_back.value, 1e-12, 0.0)) {
+            bad(ctx, "grade_back", st.grade_back.value, format!("{:?}", slopes(grades, xb)));
+        }
+        // next call: further back, by a step like one time step of travel
+        let step = rng.lrange(0.3, 60.0);
+        if x - step - l < begin || calls > 4000 {
+            break;
+        }
+        st.offset = uc::M * (x - step);
+        st.speed = uc::MPS * rng.range(0.0, 30.0);
+        dir = Dir::Bwd;
+    }
+}
+
 fn pick_ext(rng: &mut Rng) -> Extension {
     *rng.pick(&[Extension::Whole, Extension::Whole, Extension::LinkByLink, Extension::Timed])
 }
@@ -1202,5 +1273,6 @@ pub fn run_c12(ctx: &mut Ctx, rng: &mut Rng, _t: bool) {
 }
 pub fn run_c14(ctx: &mut Ctx, rng: &mut Rng, _t: bool) {
     let neg = rng.chance(0.15);
-    set_speed_run(ctx, rng, Some(1), neg)
+    let consistent = rng.chance(0.65);
+    set_speed_run_opt(ctx, rng, Some(1), neg, consistent)
 }
